@@ -19,7 +19,7 @@ from vmon.res import Result, exc_name
 
 ID = "C14"
 LEVEL = "exploration"
-CASES = {"quick": 3000, "thorough": 60000}
+CASES = {"quick": 3000, "thorough": 300000}
 RULE = ("seeded random files (CSV/JSON/Parquet/NPZ/GeoJSON written by the library and by independent writers: stdlib csv/json, "
         "pyarrow.parquet, np.savez) x every reader with column/key subsets in arbitrary order and dtype/type maps, and every alias "
         "function with random combinations of non-default keyword arguments; non-trivial = restriction is a proper subset or reordering, "
